@@ -58,6 +58,20 @@ def case_C14(seed):
     rdu, rpiu, rtiu = G.foot_on_great_circle(p, s1, s2)
     if not viol and L > 1.0 and (not close(du, rdu, 1e-6, tol_d) or G.gc_distance(piu, rpiu) > tol_d + 1e-6 * abs(rtiu) * L or abs(tiu - rtiu) * L > tol_d + 1e-6 * L * (1 + abs(rtiu))):
         viol.append(('C14:unconstrained-point-to-line', f"constrain=False: {(du, piu, tiu)} vs spherical reference {(rdu, rpiu, rtiu)}", info))
+    # --- directed probe: a kilometre-scale segment and a query point whose foot lies decimetres from the FIRST end point
+    if not viol and seed % 3 == 0:
+        Lk = rnd.uniform(1000.0, 8000.0)
+        e2 = G.destination(s1, b1, Lk)
+        foot = G.destination(s1, b1, rnd.choice([0.25, 0.4, 0.6, 1.5]))
+        pq = G.destination(foot, b1 + rnd.choice([90.0, -90.0]), rnd.uniform(0.5, 20.0))
+        dk, pik, tik = dl.distance_point_to_segment(pq, s1, e2)
+        rdk, rpik, rtik = G.nearest_on_arc(pq, s1, e2)
+        d2k, pi2k, ti2k = dl.distance_point_to_segment(pq, e2, s1)
+        if not close(dk, rdk, 1e-6, tol_d) or G.gc_distance(pik, rpik) > tol_d + 1e-6 * Lk or abs(tik - rtik) * Lk > tol_d + 1e-6 * Lk:
+            viol.append(('C14:point-to-segment-near-the-first-end-point-of-a-long-segment',
+                         f"L = {Lk} m: {(dk, pik, tik)} vs spherical reference {(rdk, rpik, rtik)}", {'s1': s1, 's2': e2, 'p': pq, 'L': Lk}))
+        elif G.gc_distance(pik, pi2k) > 2 * tol_d or abs(tik - (1 - ti2k)) * Lk > 2 * tol_d + 2e-6 * Lk:
+            viol.append(('C14:not-invariant-under-end-point-swap', f"L = {Lk} m: (s1,s2): {(dk, pik, tik)}; (s2,s1): {(d2k, pi2k, ti2k)}", {'s1': s1, 's2': e2, 'p': pq, 'L': Lk}))
     # --- project() is the projection part of distance_point_to_segment (same clamping to the segment)
     ppi, pti = dl.project(s1, s2, p)
     if not viol and (G.gc_distance(ppi, pi) > 1e-6 or abs(pti - ti) > 1e-9):
@@ -323,3 +337,68 @@ def knife_edge_ti(g, tr, tol=1e-6, along_m=0.15):
                 return True
             prev_t = t
     return False
+
+
+# ================================================================================================== C05 on a latitude-longitude map
+def case_C05_latlon(seed):
+    """C05 in the latitude-longitude metric: universe maps placed at street scale (10 m per grid unit), cut-offs in metres;
+    every emitting state on the best path lies within the cut-offs, and its reported distance and position are the distance to /
+    the nearest point of its edge according to an independent spherical reference (12 cm + 1e-6: the resolution stated in C14)."""
+    rnd = _rnd(seed, 'C05ll')
+    U.quiet()
+    case = U.gen_case(rnd, width=0)
+    s = 10.0
+    lat0, lon0 = rnd.choice([a for a in ANCHORS if abs(a[0]) < 60])
+    if seed % 2 == 0:
+        # fixes a few decimetres from a node
+        pts_ = [v[0] for v in case['graph'].values()]
+        tr_ = []
+        for p in case['trace']:
+            if rnd.random() < 0.5:
+                q = rnd.choice(pts_)
+                tr_.append((q[0] + rnd.choice([-0.05, -0.03, 0.02, 0.04]), q[1] + rnd.choice([-0.04, -0.02, 0.03, 0.05])))
+            else:
+                tr_.append(p)
+        case['trace'] = tr_
+
+    def to_ll(p):
+        return (lat0 + math.degrees(p[0] * s / G.R), lon0 + math.degrees(p[1] * s / (G.R * math.cos(math.radians(lat0)))))
+    g_ll = {k: (to_ll(v[0]), v[1]) for k, v in case['graph'].items()}
+    tr_ll = [to_ll(p) for p in case['trace']]
+    cfg = dict(case['cfg'])
+    for f in ('obs_noise', 'obs_noise_ne', 'dist_noise', 'max_dist', 'max_dist_init'):
+        if cfg.get(f) is not None:
+            cfg[f] = cfg[f] * s
+    mp = U.make_map(g_ll, use_latlon=True)
+    mt = U.make_matcher(mp, cfg)
+    try:
+        mt.match(tr_ll)
+    except Exception:
+        return {'nontrivial': False, 'violations': [], 'sample': U.case_repr(case)}          # totality is C17's business
+    lb = mt.lattice_best or []
+    max_dist = cfg.get('max_dist') or math.inf
+    max_init = cfg.get('max_dist_init') or max_dist
+    viol = []
+    for j, m in enumerate(lb):
+        if m.obs_ne != 0:
+            continue
+        bad = []
+        o = tuple(mt.path[m.obs][:2])
+        lim = max_init if j == 0 else max_dist
+        if m.edge_m.p2 is not None:
+            rd, rpi, rti = G.nearest_on_arc(o, m.edge_m.p1, m.edge_m.p2)
+            if abs(m.dist_obs - rd) > 0.12 + 1e-6 * rd:
+                bad.append(f"dist_obs {m.dist_obs} m is not the distance {rd} m to the nearest point of the edge")
+            if G.gc_distance(m.edge_m.pi, rpi) > 0.15 + 1e-6 * rd:
+                bad.append(f"reported position {m.edge_m.pi} is {G.gc_distance(m.edge_m.pi, rpi)} m from the nearest point {rpi} of the edge")
+        else:
+            rd = G.gc_distance(o, m.edge_m.p1)
+            if abs(m.dist_obs - rd) > 1e-3 + 1e-6 * rd:
+                bad.append(f"dist_obs {m.dist_obs} m is not the distance {rd} m to the node")
+        if rd > lim + 0.12:
+            bad.append(f"true distance {rd} m exceeds the cut-off {lim} m")
+        if bad:
+            viol.append(('C05:latlon-' + bad[0].split(' ')[0], f"state #{j} {m.key}: " + ' | '.join(bad),
+                         {'case': U.case_repr(case), 'anchor': [lat0, lon0], 'metres_per_unit': s, 'state_index': j, 'failed': bad}))
+            break
+    return {'nontrivial': len(lb) >= 2, 'violations': viol, 'sample': {'anchor': [lat0, lon0], 'case': U.case_repr(case)}}
